@@ -300,6 +300,23 @@ def check_tasks_and_find(cs, opm, mm, where, opkind, lab):
                                 f"{k2}={v2!r}) = {ids} != {want}", opkind)
 
 
+INT_SPELLINGS = ["int", "int", "int", "int64", "int32", "uint8", "int8",
+                 "uint16", "int16", "uint32", "uint64", "0d_int64", "0d_uint8",
+                 "0d_int16"]
+
+
+def spell_int(v, how):
+    """The integer v as another integer type, when that type can hold it."""
+    if how == "int":
+        return v
+    zero_d = how.startswith("0d_")
+    dt = np.dtype(how[3:] if zero_d else how)
+    info = np.iinfo(dt)
+    if not (info.min <= v <= info.max):
+        return v
+    return np.array(v, dtype=dt) if zero_d else dt.type(v)
+
+
 def check_partition(n, k, batches, where, opkind):
     """batches: list of k lists as returned by get_batch for i=0..k-1."""
     flat = []
@@ -335,12 +352,26 @@ def sequential_part(cs, log, ctx, hyruns, managers):
             k = cs.between("k", 1, n)
             log.ev("sweep", n, k)
             log.kind("sweep")
+            # the three integers as the caller happens to hold them: Python
+            # ints, numpy integers of any width that can hold the value
+            # (what np.arange(..., dtype=...) or a len() of a typed array
+            # hands out), 0-d arrays
+            sp = {nm: cs.choice("int." + nm, INT_SPELLINGS)
+                  for nm in ("n", "k", "i")}
+            if any(v != "int" for v in sp.values()):
+                log.ev("sweep.int_spelling", sp["n"], sp["k"], sp["i"])
+                ctx.hit("probe.integers_given_as_numpy_types")
             try:
-                batches = [hyruns.get_batch(n, k, i) for i in range(k)]
+                batches = [hyruns.get_batch(spell_int(n, sp["n"]),
+                                            spell_int(k, sp["k"]),
+                                            spell_int(i, sp["i"]))
+                           for i in range(k)]
             except Exception as e:
                 raise Violation("get_batch_raised",
-                                f"get_batch({n},{k},i) raised {e!r}", "sweep")
-            check_partition(n, k, batches, "sweep", "sweep")
+                                f"get_batch({n},{k},i) with integers given as "
+                                f"{sp} raised {e!r}", "sweep")
+            check_partition(n, k, batches, f"sweep (integers as {sp})",
+                            "sweep")
             if cs.flip("reuse", 50):
                 # the caller reuses the arrays it was handed; a later call
                 # with the same arguments must not see that
@@ -377,9 +408,10 @@ def sequential_part(cs, log, ctx, hyruns, managers):
             ids = ids[1::2] + ids[0::2]
         log.ev("sitesweep", ns, nb, order)
         log.kind("sitesweep")
+        spi = cs.choice("int.i", INT_SPELLINGS)
         try:
             sb = hyruns.SiteBatch(ids, nb)
-            lists = [sb[i] for i in range(nb)]
+            lists = [sb[spell_int(i, spi)] for i in range(nb)]
             owners = [sb.search(x) for x in ids]
         except Exception as e:
             raise Violation("sitebatch_raised", f"SiteBatch({ns},{nb}) raised "
@@ -393,6 +425,24 @@ def sequential_part(cs, log, ctx, hyruns, managers):
                                 f"SiteBatch({ns} sites, {nb} batches): site "
                                 f"#{j} is in batch {want}, search says "
                                 f"{owners[j]}", "sitesweep")
+        # more batches than sites is one of the rejected configurations
+        # (nbatch > nelements): no batch exists, so asking for one, or for the
+        # batch of a site, must not be answered as if all were well
+        if cs.flip("too_many_batches", 40):
+            nb2 = ns + 1 + cs.draw("over", 3)
+            log.ev("sitesweep.too_many_batches", ns, nb2)
+            for what in ("getitem", "search"):
+                try:
+                    sb2 = hyruns.SiteBatch(ids, nb2)
+                    res = sb2[cs.draw("i2", nb2)] if what == "getitem" \
+                        else sb2.search(ids[cs.draw("s2", ns)])
+                except Exception:
+                    ctx.hit("fault.rejected_sitebatch_call")
+                else:
+                    raise Violation("invalid_call_accepted",
+                                    f"SiteBatch({ns} sites, {nb2} batches)."
+                                    f"{what} returned {short(res)!r}",
+                                    "sitesweep")
     # (2) dictionary / JSON round-trips under the current key names
     for idx, (opm, mm) in enumerate(managers):
         with cs.span("roundtrip"):
